@@ -90,6 +90,15 @@ PROPS = {
         "design_ref": "DESIGN.md section 7, C16",
         "assumptions": ["scalars are exact real numbers", "approx::relative_eq is restated on exact reals (no infinities/NaN)"],
     },
+    "C14": {
+        "claimed": True,
+        "technique": "Coq proof (ring/field; Coquelicot is_derive by auto_derive; Interval tactic for the quarter-circle bound) over programs translated from the compiled code",
+        "level_text": "for Quadratic/Cubic x 2D/3D (89 entry points) and ALL control points and parameters (incl. t outside [0,1]): evaluate is the Bernstein polynomial with exact endpoints; evaluate_derivative is proved to be its derivative (Coquelicot is_derive, every t); split(t) halves re-parametrise the curve on [0,t], [t,1] and meet at B(t); degree elevation, segment/range conversion, reversal (1-t), flips, 2D<->3D, the coefficient-matrix form and multiplication by Mat2/3/4 in both layouts (linear and point-affine) commute with evaluation; the unit quarter circle (its control points come from the code, incl. 4(sqrt 2 - 1)/3) stays within 0.03% of radius 1 for every t in [0,1] (interval arithmetic with bisection inside Coq); unit_circle = its four mirror images.",
+        "level_note": "Trusted: Coq kernel; stdlib real-number axioms as printed; for C14_circle additionally the standard library's primitive 63-bit integer interface (PrimInt63.*, Uint63.*_spec axioms) used by the Interval tactic's big-integer arithmetic, evaluated with vm_compute; symx translator incl. the textual lift of the float Lerp impl (self-checked); Rust parametricity.",
+        "design_ref": "DESIGN.md section 7, C14",
+        "assumptions": ["scalars are exact real numbers"],
+        "trusted_extra": ["Interval 4.x tactic (C14_circle): reflexive interval arithmetic evaluated by vm_compute over the stdlib primitive-integer interface (PrimInt63/Uint63 axioms listed by Print Assumptions)"],
+    },
 }
 
 for _k in PROPS: PROPS[_k].setdefault("selfcheck", {"quick": 200, "thorough": 5000})
